@@ -8,6 +8,7 @@ import (
 	"time"
 
 	"github.com/ozontech/file.d/logger"
+	"github.com/ozontech/file.d/verifhook"
 	insaneJSON "github.com/ozontech/insane-json"
 	"go.uber.org/atomic"
 )
@@ -274,6 +275,7 @@ func (p *eventPool) get(size int) *Event {
 			// slowest path
 			p.slowWaiters.Inc()
 			p.getMu.Lock()
+			verifhook.Point("pool.std.beforeWait")
 			p.getCond.Wait()
 			p.getMu.Unlock()
 			p.slowWaiters.Dec()
@@ -328,6 +330,7 @@ func (p *eventPool) wakeupWaiters() {
 		}
 
 		time.Sleep(p.wakeupInterval)
+		verifhook.Point("pool.std.tick")
 		waiters := p.slowWaiters.Load()
 		eventsAvailable := p.inUseEvents.Load() < int64(p.capacity)
 		if waiters > 0 && eventsAvailable {
@@ -453,6 +456,7 @@ again:
 	p.slowWaiters.Inc()
 	p.getCond.L.Lock()
 	if !p.eventsAvailable() {
+		verifhook.Point("pool.low.beforeWait")
 		p.getCond.Wait()
 	}
 	p.getCond.L.Unlock()
@@ -501,6 +505,7 @@ func (p *lowMemoryEventPool) wakeupWaiters() {
 		}
 
 		time.Sleep(p.wakeupInterval)
+		verifhook.Point("pool.low.tick")
 		waiters := p.slowWaiters.Load()
 		eventsAvailable := p.eventsAvailable()
 		if waiters > 0 && !eventsAvailable {
